@@ -333,6 +333,58 @@ def rule_adder(ctx):
             r.violation(key, C.loc(f, pows[0]), "two exactly-zero terms (both exponents -inf, the sentinel "
                         "C19-SCALE requires) reach `10 ** (own - max)` = 10 ** nan: the running sum turns "
                         "nan and stays nan although later slices are non-zero")
+    # (seed C19_10) the sum is elementwise while the exponent is one number per term: no return of the adder may
+    # leave one term out — where the larger term is exactly zero in some entries, the 'negligible' one is the
+    # whole value there
+    key = ctx.key(f, "C19-ADDER", "both-terms")
+    fl = ctx.flow(f)
+    # the two mantissas: names unpacked from the two parameters
+    params = [a.arg for a in f.node.args.args][:2]
+    mant = {}
+    for n in walk_local(f.node):
+        if isinstance(n, ast.Assign) and isinstance(n.targets[0], ast.Tuple) and len(n.targets[0].elts) == 2 \
+                and isinstance(n.value, ast.Name) and n.value.id in params:
+            mant[n.value.id] = n.targets[0].elts[0].id
+    bad = None
+    # every (mantissa, exponent) alternative any return can hand back, conditional expressions included
+    alts = []
+    for n in walk_local(f.node):
+        if isinstance(n, ast.Return) and n.value is not None:
+            stack = [n.value]
+            while stack:
+                v_ = stack.pop()
+                if isinstance(v_, ast.IfExp):
+                    stack += [v_.body, v_.orelse]
+                elif isinstance(v_, ast.Tuple) and len(v_.elts) == 2:
+                    alts.append((n, v_))
+    if len(mant) == 2:
+        for rt2, tup in alts:
+            mexpr = tup.elts[0]
+            node = fl.cfg.containing(rt2, f.module.parents)
+            deps = fl.deps(mexpr, node.id, "must")
+            names = {d_[1] for d_ in deps if d_[0] == "param"}
+            locs = {x.id for x in ast.walk(mexpr) if isinstance(x, ast.Name)}
+            # dependence on both operands (through the unpacked mantissas)
+            uses = set()
+            for pn, mn in mant.items():
+                if pn in names or mn in locs:
+                    uses.add(pn)
+                else:
+                    for v in la.get(mexpr.id, []) if isinstance(mexpr, ast.Name) else []:
+                        if mn in {x.id for x in ast.walk(v) if isinstance(x, ast.Name)}:
+                            uses.add(pn)
+            if len(uses) < 2:
+                bad = rt2
+        if bad is not None:
+            g = C.enclosing_ifs(f, bad)
+            r.violation(key, C.loc(f, bad), f"`{C.unparse(bad, 50)}`" + (f" under `{C.unparse(g[0][0].test, 50)}`" if g else "") +
+                        " hands back one term's mantissa alone: the other term is dropped although it can be the entire value of "
+                        "the entries in which the returned term is exactly zero (slices of very different magnitude, sparse or "
+                        "diagonal tensors)")
+        else:
+            r.ok(key, C.loc(f, rets[0]), f"all {len(alts)} stripped return alternatives combine both mantissas")
+    else:
+        raise AnalysisError("add_maybe_exponent_stripped: unpacking of the two (mantissa, exponent) pairs not recognised")
     return r
 
 
